@@ -12,6 +12,7 @@ import (
 	"io"
 	"math/rand/v2"
 	"testing"
+	"time"
 
 	"github.com/nspcc-dev/neofs-node/internal/verifkit"
 	"github.com/nspcc-dev/neofs-node/internal/vf11"
@@ -206,6 +207,7 @@ func vf11Flatten(groups [][]*vf11.Obj) []*vf11.Obj {
 func TestVerif_C11(t *testing.T) {
 	r := verifkit.Start(t, "C11", "exploration")
 	defer r.Finish()
+	started := time.Now() // for log lines only, never for a verdict
 	var small []int
 	if r.Thorough() {
 		for l := 0; l <= 64; l++ {
@@ -214,8 +216,8 @@ func TestVerif_C11(t *testing.T) {
 	} else {
 		small = []int{0, 1, 2, 3, 7, 31, 64}
 	}
-	nBig, nDirected := r.Pick(10, 60), r.Pick(120, 300)
-	r.SetRule(fmt.Sprintf("payload lengths %v: every request of the four modes with both values in 0..len+2, plus values near 2^31/2^32/2^63/2^64; %d larger payloads (up to 100 KiB; object lengths aimed at the 20 KiB buffered prefix, twice that, and compressed forms below/above it) with %d requests each whose ends are aimed at the buffered-prefix boundaries and the payload end; every object stored as plain file, batch-written combined member, single-member combined file, zstd file, planted combined member and compressed combined member; every request through GetRangeStream, ReadPayloadRange (offset/length) and ReadObjectParts, with and without header interception; distinct = (api, format, object length class, mode, request shape, interception). Besides one-at-a-time requests: batches of 2..8 range reads (random API/object/format, ends aimed at the same boundaries) whose answers have overlapping lifetimes under a seeded schedule (issue next call / read a chunk or the rest of an open answer / abandon and close early / close late), and rounds of 24 reads from 4 goroutines; every answer judged by the same resolver; distinct there = (api, format, length class, outcome, number of calls issued during the answer's life, abandoned)", small, nBig, nDirected))
+	nBig, nDirected, nMB := r.Pick(10, 60), r.Pick(120, 300), r.Pick(3, 10)
+	r.SetRule(fmt.Sprintf("payload lengths %v: every request of the four modes with both values in 0..len+2, plus values near 2^31/2^32/2^63/2^64; %d larger payloads (up to 100 KiB; object lengths aimed at the 20 KiB buffered prefix, twice that, and compressed forms below/above it) with %d requests each whose ends are aimed at the buffered-prefix boundaries and the payload end; every object stored as plain file, batch-written combined member, single-member combined file, zstd file, planted combined member and compressed combined member; every request through GetRangeStream, ReadPayloadRange (offset/length) and ReadObjectParts, with and without header interception; distinct = (api, format, object length class, mode, request shape, interception); %d compressed objects whose zstd frame has many blocks (payloads of 0.3..1.5 MiB made of compressible / incompressible segments, compressed the way old nodes did, so that up to ten blocks begin inside the buffered first 20 KiB of the file), stored as zstd files and compressed combined members, with requests aimed at block / segment / buffering boundaries. Besides one-at-a-time requests: batches of 2..8 range reads (random API/object/format, ends aimed at the same boundaries) whose answers have overlapping lifetimes under a seeded schedule (issue next call / read a chunk or the rest of an open answer / abandon and close early / close late), and rounds of 24 reads from 4 goroutines; every answer judged by the same resolver; distinct there = (api, format, length class, outcome, number of calls issued during the answer's life, abandoned)", small, nBig, nDirected, nMB))
 
 	cnr, owner := verifkit.RandCID(r.Rand("ids", 0)), verifkit.RandUser(r.Rand("ids", 1))
 	k := 0
@@ -326,4 +328,24 @@ func TestVerif_C11(t *testing.T) {
 		r.Count("big_objects", 1)
 		r.Max("max_payload_len", int64(len(payload)))
 	}
+
+	t.Logf("sections 1-2 done after %v (log only)", time.Since(started))
+	// 3. compressed objects whose frame has many blocks (vf11/c11_multiblock.go): the
+	// storage keeps decoding compressed bytes it has buffered while the answer is consumed
+	st = vf11Open(t, r, int(r.Rand("depth", 1).IntN(5)))
+	files, members := vf11.MultiBlockSet(r, "fstree", cnr, owner, nMB)
+	if err := vf11.PlantMultiBlock(st.root, st.depth, files, members); err != nil {
+		t.Fatalf("harness store: %v", err)
+	}
+	mb := append(append([]*vf11.Obj(nil), files...), members...)
+	for i, o := range mb {
+		r.Seen("formats", o.Format)
+		for _, req := range vf11.MultiBlockReqs(r, "fstree", i, o, nDirected) {
+			st.ask(o, req, k)
+			k++
+		}
+	}
+	t.Logf("section 3 one-at-a-time done after %v (log only)", time.Since(started))
+	vf11.OverlapPhase(r, "multiblock", 0, r.Pick(60, 300), 1, func(rng *rand.Rand) vf11.Call { return st.call(rng, mb) })
+	t.Logf("section 3 done after %v (log only)", time.Since(started))
 }
